@@ -58,6 +58,9 @@ def snap_token(isd):
   return tok([(r["rid"], r["leaves"], r["containers"], r["digest"]) for r in project_isd(isd, False) if r["paints"]])
 
 
+NSPECIAL = 10
+
+
 def special_docs(rng, index):
   """Documents aimed at the cache short cuts: backgrounds visible only through style / animation / initial values."""
   docs = []
@@ -101,6 +104,20 @@ def special_docs(rng, index):
   d8["ranim_styles"] = [[]]                                        # the cache works on the source itself, not on a clone
   d8["initials"] = [["BackgroundColor", bgtok]]
   docs.append(d8)
+  # ... a region that has nothing to paint ON (a zero dimension) / is hidden until an animation step changes that, with its
+  # content at another time
+  ext = index["Extent"]
+  d9 = json.loads(json.dumps(base))
+  d9["rstyles"] = [[], [["BackgroundColor", bgtok], ["Extent", ext[-2]]]]
+  d9["ranim_styles"] = [[], [["Extent", ext[0], 12, 16]]]
+  d9["reg"] = [0, 2, 0, 0, 0]
+  docs.append(d9)
+  vis = index["Visibility"]
+  d10 = json.loads(json.dumps(base))
+  d10["rstyles"] = [[], [["BackgroundColor", bgtok], ["Visibility", vis[0]]]]             # hidden ...
+  d10["ranim_styles"] = [[], [["Visibility", vis[1], 12, 16]]]                   # ... visible during the step
+  d10["reg"] = [0, 2, 0, 0, 0]
+  docs.append(d10)
   for d in docs:
     for key, n in (("styles", d["n"]), ("anim_styles", d["n"]), ("rstyles", d["nr"]), ("ranim_styles", d["nr"])):
       d.setdefault(key, [[] for _ in range(n)])
@@ -184,7 +201,7 @@ def run(ctx):
   meta = {}
   for di, ad in enumerate(docs):
     # two query times: one inside the busiest part of the timeline, one late
-    times = [5, 13] if di < 8 else [ctx.rng.randrange(0, 12 * (ad["D"] // 2)), ctx.rng.randrange(0, 24 * (ad["D"] // 2))]
+    times = [5, 13] if di < NSPECIAL else [ctx.rng.randrange(0, 12 * (ad["D"] // 2)), ctx.rng.randrange(0, 24 * (ad["D"] // 2))]
     for h in hists:
       rid += 1
       jobs.append((ad, h, times, rid))
@@ -223,7 +240,7 @@ def run(ctx):
       di, h, times = meta[rid_]
       r = byid[rid_]
       ad = docs[di]
-      f = {"op": r["ops"][k - 1], "doc_index": di, "special_doc": di < 8,
+      f = {"op": r["ops"][k - 1], "doc_index": di, "special_doc": di < NSPECIAL,
            "bg_by_animation": any(s and s[0][0] == "BackgroundColor" for s in (ad.get("ranim_styles") or [])),
            "bg_by_initial": any(p == "BackgroundColor" for p, _t in ad.get("initials", []))}
       ctx.violation(clause, {"doc": ad, "history": list(h), "times": times, "step": k, "results": r["res"]}, f,
